@@ -259,6 +259,7 @@ func init() {
 		Explanation: "Decided: L1 exact-match consultation: before prefixSearch reports ambiguity an equality between the prefix and a command name (binarySearch's found flag or Name == prefix) has been evaluated and returns the exact command — Cmd.Match returns 0 for exact matches and proper prefixes alike, so without it 'or when the prefix equals a command name' cannot hold; " +
 			"L2 Add appends, sorts with sortCmdList, then stores, and Add/Del/Lookup index the per-letter table by the first byte of the name; L3 every scan loop of prefixSearch is bounded by len(vec); L4 sortCmdList and binarySearch agree on ascending Name order; L5 an unknown ':' input sets CmdOptForceEval (evaluated as code), an ambiguous one evaluates nothing. " +
 			"L5c in Interp.Cmd the command character is dropped from the very string in which it was found (found F49: blanks before the colon). " +
+			"L6d a debugger command is accepted only when it matches the typed prefix in every alternative of the condition. " +
 			"Not decided: the element shifting arithmetic of removeCmd (needs reasoning about slice lengths, not shape), the contents of the ambiguity list.",
 		Assumptions: []string{"sort.Slice, strings.HasPrefix as documented"},
 		Rules: []func(*Ctx){ruleCmdLookup, func(c *Ctx) {
@@ -266,6 +267,7 @@ func init() {
 			ruleDebugLookupConjunction(c, "L6d-debug-lookup-conjunction")
 		}},
 		Mutants: []Mutant{
+			{Name: "debugger-command-selected-by-first-letter-alone", File: "fast/debug/cmd.go", Old: "if found && cmd.Match(prefix) {", New: "if found || cmd.Match(prefix) {"},
 			{Name: "command-char-removed-from-untrimmed-input", File: "fast/cmd.go", Old: "\t\t\ti := strings.IndexByte(src, g.ReplCmdChar)\n\t\t\tsrc = src[:i] + \" \" + src[i+1:]", New: "\t\t\tsrc = \" \" + src[1:]"},
 			{Name: "exact-flag-discarded", File: "fast/cmd.go", Old: "\tlo, found := binarySearch(vec, prefix)\n\tif found {\n\t\t// exact match: never ambiguous, even if other names extend it\n\t\treturn lo, nil\n\t}\n", New: "\tlo, _ := binarySearch(vec, prefix)\n", Canary: true},
 			{Name: "scan-stops-one-short", File: "fast/cmd.go", Old: "for ; hi < n; hi++ {", New: "for ; hi < n-1; hi++ {", Canary: true},
@@ -435,6 +437,7 @@ func init() {
 		Title: "Generic-contract methods on basic and container types agree with Go operators",
 		Explanation: "Decided, for every one of the ~220 closures installed by addBasicTypeMethodsCTI: G2 the method name -> operator table given by the property itself (Equal ==, Less <, Add + ... AndNot &^, Lsh <<, Rsh >>, Neg -x, Not !x / ^x, Cmp three-way shape, Real/Imag/Len builtins): the closure applies exactly that Go operator; G3 operands in order (a op b, the receiver placeholder unused); G4 operand and result types are the kind's own type (bool for Equal/Less, int for Cmp); " +
 			"G5 per kind, the set of methods given a body equals the set declared by go/types makeBasicMethods for that kind; G6 every container method registered with n operands is implemented by a function that uses each of its n operands and none beyond; U sibling uniformity across kinds in cti_basic_method.go and cti_method.go. The oracle is Go's own operator on the labelled type. " +
+			"G7 the container methods Len and Cap are answered by the reflect method of the same name. " +
 			"Not decided: container methods implemented through reflect beyond uniformity (Index, Append, Copy ... are reflect calls trusted to equal the builtins).",
 		Assumptions: []string{"Go operator semantics on basic types", "reflect container operations equal the corresponding builtins"},
 		Rules: []func(*Ctx){ruleContractMethods, func(c *Ctx) {
@@ -447,6 +450,7 @@ func init() {
 			c.Floor("U-uniform", 150)
 		}},
 		Mutants: []Mutant{
+			{Name: "cap-answers-with-len", File: "xreflect/cti_method.go", Old: "\t\tr.Indirect(v[0]).Cap(),\n", New: "\t\tr.Indirect(v[0]).Len(),\n"},
 			{Name: "uint16-rem-becomes-quo", File: "xreflect/cti_basic_method.go", Old: "b uint16,\n\n\t\t\t\t) uint16 {\n\t\t\t\t\treturn a % b", New: "b uint16,\n\n\t\t\t\t) uint16 {\n\t\t\t\t\treturn a / b", Canary: true},
 			{Name: "float64-sub-operands-swapped", File: "xreflect/cti_basic_method.go", Old: "b float64,\n\n\t\t\t\t) float64 {\n\t\t\t\t\treturn a - b", New: "b float64,\n\n\t\t\t\t) float64 {\n\t\t\t\t\treturn b - a", Canary: true},
 			{Name: "int8-cmp-inverted", File: "xreflect/cti_basic_method.go", Old: "b int8,\n\n\t\t\t\t) int {\n\t\t\t\t\tif a < b {\n\t\t\t\t\t\treturn -1", New: "b int8,\n\n\t\t\t\t) int {\n\t\t\t\t\tif a < b {\n\t\t\t\t\t\treturn 1"},
@@ -792,6 +796,7 @@ func init() {
 		ID:    "C38",
 		Title: "The classic interpreter matches Go on its documented subset",
 		Explanation: "Decided: A5 in classic form: in every switch over a go/token operator in package classic, an arm that computes with exactly one Go operator uses the operator of the arm's own tokens (T and T_ASSIGN share an arm) with the operands in order; plus the macro code walk and quasiquote depth table of the classic interpreter agree with the fast one (K1, shared with C20). " +
+			"A1c inside the kind arms of the classic unary and binary evaluators an accessor result is converted to the Go type of the arm's kind; G3c the loop bound of a range over a slice is a snapshot taken before the first iteration. " +
 			"Not decided: everything else about the classic evaluator (tree-walking evaluation, scoping, calls).",
 		Assumptions: []string{"Go operator semantics"},
 		Rules: []func(*Ctx){func(c *Ctx) {
@@ -802,6 +807,8 @@ func init() {
 			ruleMonotoneFlag(c, "K3-flag-accumulates", "fast.Comp.macroExpandCodewalk", "classic.Env.macroExpandAstCodewalk", "fast.Comp.MacroExpand1", "classic.Env.macroExpandAstOnce")
 		}},
 		Mutants: []Mutant{
+			{Name: "classic-int-arm-reads-int32", File: "classic/unaryexpr.go", Old: "\t\tx := int(xv.Int())\n", New: "\t\tx := int32(xv.Int())\n"},
+			{Name: "classic-range-rereads-length", File: "classic/for.go", Old: "\t\tn := obj.Len()\n\t\tfor i := 0; i < n; i++ {", New: "\t\tfor i := 0; i < obj.Len(); i++ {", Nth: 1},
 			{Name: "classic-int-sub-is-add", File: "classic/binaryexpr.go", Old: "\tcase token.SUB, token.SUB_ASSIGN:\n\t\tret = x - y\n", New: "\tcase token.SUB, token.SUB_ASSIGN:\n\t\tret = x + y\n", Nth: 1, Canary: true},
 			{Name: "classic-float-lss-operands-swapped", File: "classic/binaryexpr.go", Old: "\t\tcase token.LSS:\n\t\t\tb = x < y\n", New: "\t\tcase token.LSS:\n\t\t\tb = y < x\n", Nth: 1, Canary: true},
 			{Name: "classic-uint-andnot-is-and", File: "classic/binaryexpr.go", Old: "ret = x &^ y", New: "ret = x & y", Nth: 2},
